@@ -2,6 +2,7 @@ import SaphyrVerif.Lemmas.C13_Emit
 import SaphyrVerif.Lemmas.C13_Lines
 import SaphyrVerif.Lemmas.C13_Safe
 import SaphyrVerif.Lemmas.C13_Compose
+import SaphyrVerif.Lemmas.C13_Block
 import SaphyrVerif.Model.EmitQuote
 import SaphyrVerif.Lemmas.EmitPVal
 /-!
@@ -31,12 +32,18 @@ single quotes; string keys stay plain), `tagged_enums` on or off (a unit variant
 scalar-text function that satisfies the safe-leaf contract — and, for the crate's OWN scalar-text functions
 (`implFns`), with the safe strings replaced by ARBITRARY strings (`emit_roundtrip_strings_partial`: the
 composition with C12 — every string as key / variant name, every string leaf that gets no block style;
-plain, single- or double-quoted as the crate decides), minus the YAML 1.1 boolean words `yaml_12` leaves
-plain (`yaml12_bool_word_counterexample`).  Both are instances of the general theorems over token
-contracts (`emit_roundtrip_contract`).  Note `implFns_not_safeContract`: the safe-leaf contract itself
+plain, single- or double-quoted as the crate decides), and with ALL strings as leaves
+(`emit_roundtrip_all_strings_partial`: a string leaf that `serialize_str` writes as a `|` literal or `>` folded BLOCK
+SCALAR — header with indentation / chomping indicator on the line of the leaf, body lines at the column
+`parent + indent_step` — in every position: value of a key, sequence item, explicit key and its value, variant
+payload, root; the quoted fall-backs of fixes a252cf9 where a block scalar cannot be used; layout `blkToks` /
+`blkStr`, `literal_leaf_layout`, `folded_leaf_layout`, `fallback_leaf_layout`), minus the YAML 1.1 boolean words
+`yaml_12` leaves plain (`yaml12_bool_word_counterexample`).  All are instances of the general theorems over
+contracts (`emit_roundtrip_contract`: `WriteContract` — what `serialize_str` writes for a string in each position;
+`ReadContract` — the reference reader takes it for the string).  Note `implFns_not_safeContract`: the safe-leaf contract itself
 does not hold for the crate's functions (`infinity` is quoted since fix 1fdb06b).
 Outside the proved fragment: scalar keys other than strings (null / bool / number keys), the
-presentation wrappers, strings that get a block style (C12), `empty_as_braces = false`, anchors.  The defect classes this property
+presentation wrappers, `empty_as_braces = false`, anchors.  The defect classes this property
 found in tuple structs, tuple / struct variants, composite keys, `compact_list_indent` and
 `indent_step` 1 / ≥ 3 (now inside the proved fragment) are repaired (fixes f421f34 beca5d5 8740963 fb15f4e 6b2e131 995e25e): the former
 counterexample theorems are regression theorems below (`*_regression`: the repaired model output and
@@ -57,36 +64,55 @@ variable {o : Opts} {f : ScalarFns} {P : LeafPred} {T : Toks}
 /-! ## the general theorems: any class of strings whose tokens satisfy the contracts -/
 
 /-- (T, the emitter invariant, general form) For EVERY option vector with `indent_step ≥ 1` and
-`empty_as_braces`, every class `P` of strings and token functions `T` for which the scalar-text functions
-satisfy the write contract (a string of the class is written as the one token `T` gives for it, no block
-style): the state machine writes exactly the prologue and the lines of the flag-free layout function over
-the tokens `T`. -/
+`empty_as_braces`, every class `P` of strings and texts `T` for which the scalar-text functions
+satisfy the write contract (a string leaf of the class is written as `T.strAt` says for the position it stands
+in: one token, or the header and the body lines of a block scalar): the state machine writes exactly the prologue
+and the lines of the flag-free layout function over the texts `T`. -/
 theorem emit_layout_contract (ho : FragOpts o) (hw : WriteContract o f P T) (v : SVal) (hv : inFragP P v = true) :
     emit o f v = .ok (prologue o ++ renderLines (layRoot T o.indentStep o.compactListIndent v)) :=
   emit_eq_layout ho hw v hv
 
-/-- (T, general form) … and when the tokens also satisfy the read contract (the reference reader takes the
-token of a string for that string), the text reads back as exactly the value. -/
-theorem emit_roundtrip_contract (ho : FragOpts o) (hw : WriteContract o f P T) (hr : ReadContract P T) (v : SVal)
+/-- (T, general form) … and when the texts also satisfy the read contract (the reference reader takes what
+is written for a string — token or block scalar — for that string), the text reads back as exactly the value. -/
+theorem emit_roundtrip_contract (ho : FragOpts o) (hw : WriteContract o f P T) (hr : ReadContract P T o.indentStep) (v : SVal)
     (hv : inFragP P v = true) : ∃ t, emit o f v = .ok t ∧ readDoc t = some (erase v) :=
   ⟨_, emit_eq_layout ho hw v hv, read_layout_pro hr o ho.indent v hv⟩
 
-/-- (T, general form) one document: the lines of the text are the prologue lines followed by the layout
-lines, and no layout line is a document marker, a directive, blank or a comment. -/
-theorem emit_single_document_contract (ho : FragOpts o) (hw : WriteContract o f P T) (hr : ReadContract P T) (v : SVal)
+/-- (T, general form, all texts — block scalars included) one document: the lines of the text are the prologue
+lines followed by the layout lines, and no layout line is a document marker; the first one is neither a
+directive nor blank nor a comment (the body lines of a block scalar may be blank or start with `#` / `%`: they are
+indented). -/
+theorem emit_single_document_lines (ho : FragOpts o) (hw : WriteContract o f P T) (hr : ReadContract P T o.indentStep) (v : SVal)
     (hv : inFragP P v = true) :
     ∃ t, emit o f v = .ok t ∧ toLines t = prologueLines o ++ layRoot T o.indentStep o.compactListIndent v ∧
-      ∀ l ∈ layRoot T o.indentStep o.compactListIndent v, isDocMarker l "---".toList = false ∧
-        isDocMarker l "...".toList = false ∧ l.text.head? ≠ some '%' ∧ l.isSkippable = false := by
-  have hg := (root_lines (cp := o.compactListIndent) hr ho.indent v hv).1
-  refine ⟨_, emit_eq_layout ho hw v hv, ?_, ?_⟩
+      (∀ l ∈ layRoot T o.indentStep o.compactListIndent v, isDocMarker l "---".toList = false ∧
+        isDocMarker l "...".toList = false) ∧
+      (∃ l rest, layRoot T o.indentStep o.compactListIndent v = l :: rest ∧ l.text.head? ≠ some '%' ∧ l.isSkippable = false) := by
+  obtain ⟨hg, hfirst, _⟩ := root_lines (cp := o.compactListIndent) hr ho.indent v hv
+  refine ⟨_, emit_eq_layout ho hw v hv, ?_, ?_, ?_⟩
   · unfold prologue prologueLines
     cases o.yaml12
     · simpa using toLines_render _ hg
     · simpa using toLines_prologue _ hg
   · intro l hl
-    have h := hg l hl
-    exact ⟨(goodLine_not_marker h).1, (goodLine_not_marker h).2, goodLine_not_pct h, goodLine_notSkippable h⟩
+    exact layLine_not_marker (hg l hl)
+  · obtain ⟨l, rest, e, h1, h2⟩ := hfirst
+    exact ⟨l, rest, e, h2, h1⟩
+
+/-- (T, general form, texts that are tokens: `T.IsTok`) one document: the lines of the text are the prologue lines
+followed by the layout lines, and no layout line is a document marker, a directive, blank or a comment. -/
+theorem emit_single_document_contract (ho : FragOpts o) (hw : WriteContract o f P T) (hr : ReadContract P T o.indentStep)
+    (ht : T.IsTok) (v : SVal) (hv : inFragP P v = true) :
+    ∃ t, emit o f v = .ok t ∧ toLines t = prologueLines o ++ layRoot T o.indentStep o.compactListIndent v ∧
+      ∀ l ∈ layRoot T o.indentStep o.compactListIndent v, isDocMarker l "---".toList = false ∧
+        isDocMarker l "...".toList = false ∧ l.text.head? ≠ some '%' ∧ l.isSkippable = false := by
+  obtain ⟨t, he, hl, _, _⟩ := emit_single_document_lines ho hw hr v hv
+  refine ⟨t, he, hl, ?_⟩
+  have hg : AllQ GoodLine (layRoot T o.indentStep o.compactListIndent v) :=
+    layRoot_good (fun _ h => h) hr (BodyQ.ofTok ht _) o.compactListIndent v hv
+  intro l hl
+  have h := hg l hl
+  exact ⟨(goodLine_not_marker h).1, (goodLine_not_marker h).2, goodLine_not_pct h, goodLine_notSkippable h⟩
 
 /-! ## the safe leaf class -/
 
@@ -103,12 +129,12 @@ a value or the name of a variant with data (keys stay plain), a unit variant und
 theorem emit_layout_partial (ho : FragOpts o) (hf : SafeContract f) (v : SVal)
     (hv : inFrag o v = true) :
     emit o f v = .ok (prologue o ++ renderLines (layRoot (safeToks o) o.indentStep o.compactListIndent v)) :=
-  emit_eq_layout ho (safe_write hf) v hv
+  emit_eq_layout ho (safe_write ho hf) v hv
 
 /-- (T) C13 on the fragment: serialization succeeds and the text reads back as exactly the value. -/
 theorem emit_roundtrip_partial (ho : FragOpts o) (hf : SafeContract f) (v : SVal)
     (hv : inFrag o v = true) : ∃ t, emit o f v = .ok t ∧ readDoc t = some (erase v) :=
-  emit_roundtrip_contract ho (safe_write hf) (safe_read o) v hv
+  emit_roundtrip_contract ho (safe_write ho hf) (safe_read o _) v hv
 
 /-- (T) C13 "one document": on the fragment the lines of the text are exactly the prologue lines
 (`%YAML 1.2`, `---` under `yaml_12`: one directive and one document start marker, before everything
@@ -119,7 +145,7 @@ theorem emit_single_document (ho : FragOpts o) (hf : SafeContract f) (v : SVal)
     ∃ t, emit o f v = .ok t ∧ toLines t = prologueLines o ++ layRoot (safeToks o) o.indentStep o.compactListIndent v ∧
       ∀ l ∈ layRoot (safeToks o) o.indentStep o.compactListIndent v, isDocMarker l "---".toList = false ∧
         isDocMarker l "...".toList = false ∧ l.text.head? ≠ some '%' ∧ l.isSkippable = false :=
-  emit_single_document_contract ho (safe_write hf) (safe_read o) v hv
+  emit_single_document_contract ho (safe_write ho hf) (safe_read o _) (Toks.ofStr_isTok _ _ _ _) v hv
 
 /-- the statements for `quote_all = false`, `yaml_12 = false` in their original form: the layout over the
 plain tokens, no line of the output at all is a document marker or a directive -/
@@ -147,14 +173,14 @@ as the name of a variant with data, every string leaf for which `serialize_str` 
 would be written plain), every unit variant (under `tagged_enums`: `!!Enum variant`, the enum name an ASCII
 identifier) — written plain, single-quoted or double-quoted as the crate decides (`genToks`) — except, under
 `yaml_12`, the YAML 1.1 boolean words the option leaves plain. -/
-theorem impl_contracts (o : Opts) :
-    WriteContract o implFns (implPred o) (genToks o implFns) ∧ ReadContract (implPred o) (genToks o implFns) :=
-  ⟨impl_write, impl_read o⟩
+theorem impl_contracts (o : Opts) (ho : FragOpts o) :
+    WriteContract o implFns (implPred o) (genToks o implFns) ∧ ReadContract (implPred o) (genToks o implFns) o.indentStep :=
+  ⟨impl_write ho, impl_read o _⟩
 
 /-- (T) the emitter invariant for arbitrary strings -/
 theorem emit_layout_strings_partial (ho : FragOpts o) (v : SVal) (hv : inFragP (implPred o) v = true) :
     emit o implFns v = .ok (prologue o ++ renderLines (layRoot (genToks o implFns) o.indentStep o.compactListIndent v)) :=
-  emit_layout_contract ho impl_write v hv
+  emit_layout_contract ho (impl_write ho) v hv
 
 /-- (T) C12 ∘ C13: every value of the fragment over arbitrary strings (`implPred o`), under every option
 vector with `indent_step ≥ 1` and `empty_as_braces` (`yaml_12`, `quote_all`, `compact_list_indent`,
@@ -164,7 +190,7 @@ get a block style (C12's `literal_roundtrip` / `auto_folded_roundtrip`), enum na
 `tagged_enums`, and under `yaml_12` the boolean words left plain (`yaml12_bool_word_counterexample`). -/
 theorem emit_roundtrip_strings_partial (ho : FragOpts o) (v : SVal) (hv : inFragP (implPred o) v = true) :
     ∃ t, emit o implFns v = .ok t ∧ readDoc t = some (erase v) :=
-  emit_roundtrip_contract ho impl_write (impl_read o) v hv
+  emit_roundtrip_contract ho (impl_write ho) (impl_read o _) v hv
 
 /-- (T) the same in the class that is easiest to read (`lineStrPred o`): ANY string without line breaks and
 not longer than `folded_wrap_chars` as a leaf or as the name of a unit variant, ANY string at all as a mapping
@@ -180,7 +206,134 @@ theorem emit_single_document_strings_partial (ho : FragOpts o) (v : SVal) (hv : 
       toLines t = prologueLines o ++ layRoot (genToks o implFns) o.indentStep o.compactListIndent v ∧
       ∀ l ∈ layRoot (genToks o implFns) o.indentStep o.compactListIndent v, isDocMarker l "---".toList = false ∧
         isDocMarker l "...".toList = false ∧ l.text.head? ≠ some '%' ∧ l.isSkippable = false :=
-  emit_single_document_contract ho impl_write (impl_read o) v hv
+  emit_single_document_contract ho (impl_write ho) (impl_read o _) (Toks.ofStr_isTok _ _ _ _) v hv
+
+/-! ## the composition C12 ∘ C13 with block scalars: ALL strings as leaves -/
+
+/-- (T) The contracts hold for the crate's own scalar-text functions on the class `allStrPred o`: EVERY string as a
+leaf — whatever `serialize_str` does with it in the position it stands in: plain, single- or double-quoted token,
+`|` literal block (strings with line breaks) or `>` folded block (long single-line strings), with indentation
+indicator and chomping indicator as the crate chooses them, the quoted fall-back where a block scalar cannot be used
+(`blkToks` / `blkStr`) —, every string as a mapping key, as the name of a variant with data or of a unit variant (written
+like a string leaf; under `tagged_enums`: `!!Enum variant`, the enum name an ASCII identifier); except, under `yaml_12`,
+the YAML 1.1 boolean words the option leaves plain. -/
+theorem all_strings_contracts (o : Opts) (ho : FragOpts o) :
+    WriteContract o implFns (allStrPred o) (blkToks o implFns) ∧ ReadContract (allStrPred o) (blkToks o implFns) o.indentStep :=
+  ⟨blk_write ho, blk_read o _ ho.indent⟩
+
+/-- (T) the emitter invariant for all strings: the text is the prologue and the lines of the layout function over the
+texts `blkToks` — for a string leaf written as a block scalar: the header on the line of the leaf (after `key: ` / `- ` /
+`? ` / `: `, or alone at the root), then the body lines at the column `parent + indent_step` (`blkStr`, `litLeaf`,
+`foldLeaf`). -/
+theorem emit_layout_all_strings_partial (ho : FragOpts o) (v : SVal) (hv : inFragP (allStrPred o) v = true) :
+    emit o implFns v = .ok (prologue o ++ renderLines (layRoot (blkToks o implFns) o.indentStep o.compactListIndent v)) :=
+  emit_layout_contract ho (blk_write ho) v hv
+
+/-- (T) C12 ∘ C13 with block scalars: every value of the fragment over ALL strings (`allStrPred o`), under every
+option vector with `indent_step ≥ 1` and `empty_as_braces` (`yaml_12`, `quote_all`, `compact_list_indent`,
+`prefer_block_scalars`, the folding thresholds arbitrary), serializes with the crate's own scalar-text functions to a
+text that reads back as exactly the value — string leaves as plain / quoted tokens, literal or folded block scalars
+at every nesting position (value of a mapping key, item of a block sequence, explicit key `? ` and its value `: `,
+payload of a variant, root); unit variants likewise.  Excluded (visible in `allStrPred`): under `yaml_12` the boolean
+words left plain (`yaml12_bool_word_counterexample`); under `tagged_enums` enum names that are no ASCII identifiers. -/
+theorem emit_roundtrip_all_strings_partial (ho : FragOpts o) (v : SVal) (hv : inFragP (allStrPred o) v = true) :
+    ∃ t, emit o implFns v = .ok t ∧ readDoc t = some (erase v) :=
+  emit_roundtrip_contract ho (blk_write ho) (blk_read o _ ho.indent) v hv
+
+/-- (T) one document, all strings: the lines of the text are the prologue lines followed by the layout lines; no
+layout line is a document marker; the first one is neither a directive nor blank nor a comment (body lines of a
+block scalar may be: they are indented) -/
+theorem emit_single_document_all_strings_partial (ho : FragOpts o) (v : SVal) (hv : inFragP (allStrPred o) v = true) :
+    ∃ t, emit o implFns v = .ok t ∧
+      toLines t = prologueLines o ++ layRoot (blkToks o implFns) o.indentStep o.compactListIndent v ∧
+      (∀ l ∈ layRoot (blkToks o implFns) o.indentStep o.compactListIndent v, isDocMarker l "---".toList = false ∧
+        isDocMarker l "...".toList = false) ∧
+      (∃ l rest, layRoot (blkToks o implFns) o.indentStep o.compactListIndent v = l :: rest ∧ l.text.head? ≠ some '%' ∧
+        l.isSkippable = false) :=
+  emit_single_document_lines ho (blk_write ho) (blk_read o _ ho.indent) v hv
+
+/-- the fragment of `emit_roundtrip_strings_partial` (string leaves without block style) is part of this one -/
+example (v : SVal) (hv : inFragP (implPred o) v = true) : inFragP (allStrPred o) v = true := implPred_all hv
+
+/-- without `yaml_12` (or under `quote_all`) the class is: every string, everywhere -/
+theorem allStrPred_every (hy : o.yaml12 = false ∨ o.quoteAll = true) (s : List Char) :
+    (allStrPred o).str s = true ∧ (allStrPred o).name s = true ∧ (o.yaml12 = false → (allStrPred o).key s = true) ∧
+    (∀ e, o.taggedEnums = false ∨ tagNameOk e = true → (allStrPred o).unit e s = true) := by
+  refine ⟨?_, ?_, ?_, ?_⟩
+  · rcases hy with hy | hy <;> simp [allStrPred, boolRisk, hy]
+  · rcases hy with hy | hy <;> simp [allStrPred, implPred, boolRisk, hy]
+  · intro h; simp [allStrPred, implPred, h]
+  · intro e he
+    rcases hy with hy | hy <;> rcases he with he | he <;> simp [allStrPred, boolRisk, hy, he]
+
+/-- (T) what the layout says for a string leaf that is written as a LITERAL block scalar (a string with a line
+break of the auto-block class, no fall-back in this position): the header `|` + indentation indicator (the column
+of the body, iff the first non-empty line starts with a blank) + chomping indicator, then one body line per content
+line — the content line `x` after `N = parent + indent_step` blanks (`bodyLineAt`: rendered `spaces N ++ x`), the
+lines beyond the first trailing line break as empty lines -/
+theorem literal_leaf_layout (f : ScalarFns) (k : Nat) (pos : StrPos) (s : List Char) (ha : autoBlock o f s = true)
+    (hn : s.contains '\n' = true) (hfb : blockFallback k pos s = false) :
+    blkStr o f k pos s = ('|' :: (indChars (needsInd s) (bodyCol k pos) ++ chompChars (trailNl s)),
+      (litLines s).map (bodyLineAt (bodyCol k pos))) ∧
+    renderLines ((litLines s).map (bodyLineAt (bodyCol k pos))) = bodyText (bodyCol k pos) (litLines s) ∧
+    ∀ l ∈ (litLines s).map (bodyLineAt (bodyCol k pos)), l.indent ≥ bodyCol k pos := by
+  refine ⟨by simp only [blkStr, ha, hfb, hn, if_true, Bool.false_eq_true, if_false, litLeaf, blockHdr], renderLines_body _ _, ?_⟩
+  intro l hl
+  simp only [List.mem_map] at hl
+  obtain ⟨x, _, rfl⟩ := hl
+  simp [bodyLineAt]
+
+/-- (T) … and as a FOLDED block scalar (a single-line string of the auto-block class, for the crate's own functions:
+it passed the plain-value test and is longer than `folded_wrap_chars`): the header `>-`, then the segments
+`write_folded_block` cuts the string into, each at the column `N = parent + indent_step`; joined by single blanks
+the segments are the string; none is empty or starts with a blank -/
+theorem folded_leaf_layout (k : Nat) (pos : StrPos) (s : List Char) (ha : autoBlock o implFns s = true)
+    (hn : s.contains '\n' = false) (hfb : blockFallback k pos s = false) :
+    ∃ segs, blkStr o implFns k pos s = (['>', '-'], segs.map fun e => (⟨bodyCol k pos, e⟩ : Line)) ∧
+      SaphyrVerif.Lemmas.C12.joinSp segs = s ∧ segs ≠ [] ∧ ∀ e ∈ segs, e ≠ [] ∧ e.head? ≠ some ' ' := by
+  have hpv : implFns.isPlainValueSafe s o.yaml12 false = true := by
+    unfold autoBlock at ha
+    simp only [hn, Bool.false_eq_true, if_false, Bool.and_eq_true] at ha
+    exact ha.2.1
+  obtain ⟨hne, hhead, hc⟩ := impl_pvs_facts hpv
+  have hnl : ∀ c ∈ s, c ≠ '\n' := fun c hcm => (lineChar_of_notControl (hc c hcm)).1
+  obtain ⟨segs, hfl, hjoin, hsne, hsegs⟩ := foldedLine_spec s (spaces (bodyCol k pos)) o.foldedWrapCol hne hhead
+  have hmem : ∀ e ∈ segs, ∀ c ∈ e, c ∈ s := fun e he c hcm => hjoin ▸ mem_joinSp segs e he c hcm
+  refine ⟨segs, ?_, hjoin, hsne, hsegs⟩
+  have htrim : trailNl s = 0 ∧ needsInd s = false := by
+    have := foldLeaf_ok (bodyCol k pos + 1) 0 o.foldedWrapCol s (by omega) hne hhead (fun c hcm => lineChar_of_notControl (hc c hcm)) (by omega)
+    obtain ⟨c, cs, rfl⟩ : ∃ c cs, s = c :: cs := by
+      cases s with
+      | nil => exact absurd rfl hne
+      | cons c cs => exact ⟨c, cs, rfl⟩
+    have hcsp : c ≠ ' ' := fun e => hhead (by simp [e])
+    have hlast : (c :: cs).getLast? ≠ some '\n' := fun h => hnl _ (List.mem_of_getLast? h) rfl
+    have ht : trimEndNl (c :: cs) = c :: cs := by
+      unfold trimEndNl
+      cases hr : (c :: cs).reverse with
+      | nil => simp at hr
+      | cons a as =>
+        have ha' : a ≠ '\n' := by
+          intro e
+          apply hlast
+          have : c :: cs = (a :: as).reverse := by rw [← hr, List.reverse_reverse]
+          rw [this, e]; simp
+        have hb : (a == '\n') = false := by simpa using ha'
+        simp only [List.dropWhile_cons, hb, Bool.false_eq_true, if_false]
+        rw [← hr, List.reverse_reverse]
+    exact ⟨by simp [trailNl, ht], by simp [needsInd, ht, firstLineLeadingSpaces, splitNl_noNl _ hnl, List.takeWhile_cons, hcsp]⟩
+  have hfb' : foldedBlock s (bodyCol k pos) 1 o.foldedWrapCol = SaphyrVerif.Lemmas.C12.joinLines (segs.map (spaces (bodyCol k pos) ++ ·)) := by
+    simp only [foldedBlock, splitNl_noNl s hnl, List.flatMap_cons, List.flatMap_nil, List.append_nil, Nat.one_mul, hfl]
+  simp only [blkStr, ha, hfb, hn, if_true, Bool.false_eq_true, if_false, foldLeaf, blockHdr, htrim.1, htrim.2, indChars, chompChars,
+    List.nil_append, hfb']
+  rw [textLines_joinLines _ segs (fun e he => (hsegs e he).2) (fun e he c hcm => hnl c (hmem e he c hcm))]
+
+/-- (T) … and where the block style is given up (`blockFallback`: indentation indicator under a parent that is not at
+column 0 or deeper than 9 columns, `- - ` under `indent_step 1`, control characters): one token, what
+`write_plain_or_quoted_value` writes -/
+theorem fallback_leaf_layout (f : ScalarFns) (k : Nat) (pos : StrPos) (s : List Char) (ha : autoBlock o f s = true)
+    (hfb : blockFallback k pos s = true) : blkStr o f k pos s = (plainOrQuotedValue o f false s, []) := by
+  simp [blkStr, ha, hfb]
 
 /-- (F, about the ASSUMPTION of the theorems on the safe class, not about the code) the safe-leaf contract
 `SafeContract` does not hold for the crate's own scalar-text functions: `infinity` is a safe string
@@ -323,6 +476,25 @@ theorem C13_Strings_Full_false : ¬ C13_Strings_Full := by
   rw [yaml12_bool_word_counterexample.2.1] at hr
   exact absurd hr (by decide)
 
+/-- every string as a leaf, at full strength: every option vector of the fragment -/
+def C13_AllStrings_Full : Prop :=
+  ∀ (o : Opts) (s : List Char), FragOpts o → ∃ t, emit o implFns (.str s) = .ok t ∧ readDoc t = some (.str s)
+
+/-- (F) … is false through the `yaml_12` boolean words only (`emit_roundtrip_all_strings_partial` has everything else) -/
+theorem C13_AllStrings_Full_false : ¬ C13_AllStrings_Full := by
+  intro h
+  obtain ⟨t, he, hr⟩ := h { yaml12 := true } "yes".toList ⟨by decide, rfl⟩
+  rw [yaml12_bool_word_counterexample.1] at he
+  cases he
+  rw [yaml12_bool_word_counterexample.2.1] at hr
+  exact absurd hr (by decide)
+
+/-- (T) … and true without `yaml_12`: EVERY string, alone at the root (the other positions: the theorem above) -/
+theorem emit_roundtrip_every_string_yaml11 {o : Opts} (ho : FragOpts o) (hy : o.yaml12 = false) (s : List Char) :
+    ∃ t, emit o implFns (.str s) = .ok t ∧ readDoc t = some (.str s) := by
+  have := emit_roundtrip_all_strings_partial ho (.str s) (by simp [inFragP, allStrPred, boolRisk, hy])
+  simpa [erase] using this
+
 /-- (F) the full statement does not hold for the code as it is. -/
 theorem C13_Full_false : ¬ C13_Full := by
   intro h
@@ -391,6 +563,66 @@ example : emit {} implFns stringsValue =
 set_option maxRecDepth 4000 in
 example : readDoc "a key:\n  - \"hello: world\"\n  - \"it's # not a comment\"\n  - \"\"\n  - \"- x\"\n  - \"123\"\n  - \"null\"\n  - plain text\n\"yes\":\n  \"On\": \" lead\"\n\"t\\tab\":\n  ? - q\"uote\n  : \"tr\\\\ail \"\n".toList =
     some (erase stringsValue) := by decide +kernel
+/-! ### block scalars as leaves (`emit_roundtrip_all_strings_partial`) -/
+
+/-- a value whose string leaves get every treatment `serialize_str` has, in every kind of position: literal blocks
+(clip / keep / strip chomping, indentation indicator under a parent at column 0), a folded block, the quoted
+fall-backs (indicator under a nested parent, control characters), a quoted and a plain token; as values of keys, as
+sequence items, in a nested sequence, as the payload of a variant, inside an explicit key and as its value; body
+lines that look like a comment / a document marker -/
+def blockValue : SVal :=
+  SVal.struct [
+    ("text".toList, .str "line one\nline two\n".toList),
+    ("items".toList, .seq [.str "a\n  b\n\n".toList, .str "word word  word   word ".toList, .seq [.str "x\ny".toList, .int 1]]),
+    ("lead".toList, .str " indented first\nthen not".toList),
+    ("nested".toList, SVal.struct [("lead".toList, .str " x\ny".toList), ("v".toList, .newtypeVariant "Nv".toList (.str "p\nq\n\n\n".toList))]),
+    ("keys".toList, .map true [(.seq [.str "k\nk".toList], .str "# not a comment\n--- not a marker\n".toList)]),
+    ("ctl".toList, .str "a\rb\nc".toList),
+    ("plain".toList, .str "yes".toList)]
+
+example : inFragP (allStrPred { foldedWrapCol := 10 }) blockValue = true := by decide +kernel
+example : inFragP (allStrPred { foldedWrapCol := 10, indentStep := 1, compactListIndent := true, yaml12 := true, quoteAll := true })
+    (.seq [.str " a\nb".toList, .seq [.str "a\nb".toList], blockValue]) = true := by decide +kernel
+example : inFragP (implPred { foldedWrapCol := 10 }) blockValue = false := by decide +kernel
+set_option maxRecDepth 8000 in
+/-- model output (identical to the implementation's) -/
+example : emit { foldedWrapCol := 10 } implFns blockValue =
+    .ok "text: |\n  line one\n  line two\nitems:\n  - |+\n    a\n      b\n    \n  - >-\n    word\n    word  word  \n    word \n  - - |-\n      x\n      y\n    - 1\nlead: |2-\n   indented first\n  then not\nnested:\n  lead: \" x\\ny\"\n  v:\n    Nv: |+\n      p\n      q\n      \n      \nkeys:\n  ? - |-\n      k\n      k\n  : |\n    # not a comment\n    --- not a marker\nctl: \"a\\rb\\nc\"\nplain: \"yes\"\n".toList := by rfl
+set_option maxRecDepth 8000 in
+/-- … and the reader on it -/
+example : readDoc "text: |\n  line one\n  line two\nitems:\n  - |+\n    a\n      b\n    \n  - >-\n    word\n    word  word  \n    word \n  - - |-\n      x\n      y\n    - 1\nlead: |2-\n   indented first\n  then not\nnested:\n  lead: \" x\\ny\"\n  v:\n    Nv: |+\n      p\n      q\n      \n      \nkeys:\n  ? - |-\n      k\n      k\n  : |\n    # not a comment\n    --- not a marker\nctl: \"a\\rb\\nc\"\nplain: \"yes\"\n".toList =
+    some (erase blockValue) := by decide +kernel
+/-- other steps: `indent_step 1` (no block scalar after `- - `: quoted; the body one column under a root dash), 4, 11
+(the indentation indicator would exceed 9: quoted) -/
+example : emit { foldedWrapCol := 2, indentStep := 1 } implFns (.seq [.str " a\nb".toList, .seq [.str "a\nb".toList], .str "a\nb".toList]) =
+    .ok "- |1-\n  a\n b\n- - \"a\\nb\"\n- |-\n a\n b\n".toList := by rfl
+example : readDoc "- |1-\n  a\n b\n- - \"a\\nb\"\n- |-\n a\n b\n".toList =
+    some (erase (.seq [.str " a\nb".toList, .seq [.str "a\nb".toList], .str "a\nb".toList])) := by decide +kernel
+example : emit { foldedWrapCol := 10, indentStep := 4 } implFns (.newtypeVariant "V".toList (.str "aaaa bbbb cccc dddd".toList)) =
+    .ok "V: >-\n    aaaa bbbb\n    cccc dddd\n".toList := by rfl
+example : emit { foldedWrapCol := 2, indentStep := 11 } implFns (SVal.struct [("k".toList, .str " a\nb".toList), ("j".toList, .str "a\nb".toList)]) =
+    .ok "k: \" a\\nb\"\nj: |-\n           a\n           b\n".toList := by rfl
+/-- unit variants are written like string leaves (block scalars included); under `tagged_enums` as `!!Enum variant` -/
+example : inFragP (allStrPred { foldedWrapCol := 2 }) (.seq [.unitVariant "E".toList "a\nb".toList,
+    SVal.struct [("k".toList, .unitVariant "E".toList "aa bb  c".toList)]]) = true := by decide +kernel
+example : emit { foldedWrapCol := 2 } implFns (.seq [.unitVariant "E".toList "a\nb".toList,
+      SVal.struct [("k".toList, .unitVariant "E".toList "aa bb  c".toList)]]) =
+    .ok "- |-\n  a\n  b\n- k: >-\n    aa bb  c\n".toList := by rfl
+example : readDoc "- |-\n  a\n  b\n- k: >-\n    aa bb  c\n".toList =
+    some (erase (.seq [.unitVariant "E".toList "a\nb".toList, SVal.struct [("k".toList, .unitVariant "E".toList "aa bb  c".toList)]])) := by
+  decide +kernel
+example : emit { foldedWrapCol := 2, taggedEnums := true } implFns (.seq [.unitVariant "E".toList "a\nb".toList,
+      SVal.struct [("k".toList, .unitVariant "E".toList "aa bb  c".toList)]]) =
+    .ok "- !!E \"a\\nb\"\n- k: !!E aa bb  c\n".toList := by rfl
+/-- the layout function at a block leaf: header on the line of the key, the body lines at column `0 + indent_step`,
+the leading blanks of a content line counted as indentation -/
+example : layRoot (blkToks { foldedWrapCol := 2 } implFns) 2 false (SVal.struct [("k".toList, .str " a\n\nb\n\n".toList)]) =
+    [⟨0, "k: |2+".toList⟩, ⟨3, "a".toList⟩, ⟨2, []⟩, ⟨2, "b".toList⟩, ⟨2, []⟩] := by decide +kernel
+/-- the hypotheses of the layout theorems for a single leaf are satisfiable -/
+example : autoBlock { foldedWrapCol := 2 } implFns " a\n\nb\n\n".toList = true ∧ blockFallback 2 (.val 0) " a\n\nb\n\n".toList = false ∧
+    blockFallback 2 (.val 2) " a\n\nb\n\n".toList = true ∧ blockFallback 1 (.item 2) "a\nb".toList = true ∧
+    autoBlock { foldedWrapCol := 4 } implFns "aa bb  cc ".toList = true ∧ blockFallback 2 .root "aa bb  cc ".toList = false := by
+  decide +kernel
 /-- `tagged_enums` at work (model output; identical to the implementation's): a unit variant is `!!Enum variant`
 with the variant name written by the value rule (here quoted by `quote_all` / because it is a YAML 1.1 boolean
 word), and the reader on it -/
@@ -440,14 +672,14 @@ example : SafeContract safeFns :=
   ⟨fun s h => by simp [safeFns, h], fun s y fl h => by simp [safeFns, h], fun s h => by simp [safeFns, h]⟩
 /-- the contracts of the general theorems are satisfiable (by the crate's own functions, `impl_contracts`; by
 any functions with the safe-leaf contract, `safe_write` / `safe_read`) on non-trivial values -/
-example : ∃ (P : LeafPred) (T : Toks), WriteContract { quoteAll := true } implFns P T ∧ ReadContract P T ∧
+example : ∃ (P : LeafPred) (T : Toks), WriteContract { quoteAll := true } implFns P T ∧ ReadContract P T 2 ∧
     inFragP P stringsValue = true :=
-  ⟨_, _, (impl_contracts _).1, (impl_contracts _).2, by decide +kernel⟩
+  ⟨_, _, (impl_contracts _ ⟨by decide, rfl⟩).1, (impl_contracts { quoteAll := true } ⟨by decide, rfl⟩).2, by decide +kernel⟩
 example : WriteContract { taggedEnums := true } safeFns (safePred { taggedEnums := true }) (safeToks { taggedEnums := true }) ∧
-    ReadContract (safePred { taggedEnums := true }) (safeToks { taggedEnums := true }) ∧
+    ReadContract (safePred { taggedEnums := true }) (safeToks { taggedEnums := true }) 2 ∧
     inFragP (safePred { taggedEnums := true }) sampleValue = true :=
-  ⟨safe_write ⟨fun s h => by simp [safeFns, h], fun s y fl h => by simp [safeFns, h], fun s h => by simp [safeFns, h]⟩,
-   safe_read _, by decide⟩
+  ⟨safe_write ⟨by decide, rfl⟩ ⟨fun s h => by simp [safeFns, h], fun s y fl h => by simp [safeFns, h], fun s h => by simp [safeFns, h]⟩,
+   safe_read _ _, by decide⟩
 /-- the crate's scalar functions on sample safe strings -/
 example : implFns.isPlainSafe "demo".toList = true ∧ implFns.isPlainValueSafe "demo".toList false true = true ∧
     implFns.isPlainValueSafe "x1".toList true false = true := by decide
